@@ -43,6 +43,7 @@ static const char* cls(size_t r) {
         case ZSTD_error_stage_wrong: return "err:stage";
         case ZSTD_error_parameter_unsupported: return "err:unsupported";
         case ZSTD_error_checksum_wrong: return "err:checksum";
+        case ZSTD_error_frameParameter_windowTooLarge: return "err:window";
         default: fprintf(stderr, "other: %s\n", ZSTD_getErrorName(r)); return "err:other";
     }
 }
@@ -172,6 +173,18 @@ int main(void) {
             else { ZSTD_inBuffer in = { f, 0, 0 }; ZSTD_outBuffer out = { dst, sizeof dst, 0 }; size_t fed = 0; r = 1;
                 while (!ZSTD_isError(r) && r != 0 && fed < n) { size_t step = 700; if (step > n - fed) step = n - fed; in.src = f; in.size = fed + step; in.pos = fed; r = ZSTD_decompressStream(dctx, &out, &in); fed = in.pos; if (in.pos < in.size && !ZSTD_isError(r) && out.pos == out.size) break; }
                 if (!ZSTD_isError(r) && (out.pos != 5000 || memcmp(dst, src, 5000))) r = (size_t)-ZSTD_error_corruption_detected; }
+            if (ZSTD_isError(r)) ZSTD_DCtx_reset(dctx, ZSTD_reset_session_only);
+            dump(cls(ZSTD_isError(r) ? r : 0));
+        } else if (!strcmp(a, "dwin") && kind == 'd') {
+            /* dwin <windowLog> : streaming decode (700-byte steps, one fixed output buffer: legal in both buffer modes) of a hand-made frame that declares a window of
+             * 2^windowLog bytes and no content size (one raw block of 1000 bytes), with the parameters in force */
+            unsigned char f[4096]; size_t n = 0, r = 1, fed = 0; ZSTD_inBuffer in = { f, 0, 0 }; ZSTD_outBuffer out = { dst, sizeof dst, 0 };
+            f[n++] = 0x28; f[n++] = 0xB5; f[n++] = 0x2F; f[n++] = 0xFD; f[n++] = 0x00; f[n++] = (unsigned char)((x - 10) << 3);
+            { unsigned const bh = (1000u << 3) | 1; f[n++] = bh & 255; f[n++] = (bh >> 8) & 255; f[n++] = (bh >> 16) & 255; }
+            memcpy(f + n, src, 1000); n += 1000;
+            ZSTD_DCtx_reset(dctx, ZSTD_reset_session_only); dstarted = 0;
+            while (!ZSTD_isError(r) && r != 0 && fed < n) { size_t step = 700; if (step > n - fed) step = n - fed; in.src = f; in.size = fed + step; in.pos = fed; r = ZSTD_decompressStream(dctx, &out, &in); if (in.pos == fed && !ZSTD_isError(r) && r != 0 && in.size == n) break; fed = in.pos; }
+            if (!ZSTD_isError(r) && (r != 0 || out.pos != 1000 || memcmp(dst, src, 1000))) r = (size_t)-ZSTD_error_corruption_detected;
             if (ZSTD_isError(r)) ZSTD_DCtx_reset(dctx, ZSTD_reset_session_only);
             dump(cls(ZSTD_isError(r) ? r : 0));
         } else if (!strcmp(a, "start")) {
